@@ -114,6 +114,22 @@ def run_reg(ctx, case):
   spec = case['spec']
   ctx.bucket('reg:required-denylisted' if case['mode'] == 'deny' else 'reg:required-not-allowlisted')
   p = probes.build(spec, register=False)
+  if ctx.case_no % 2 == 0:
+    # the same object is first registered under another name, without lists: accepted, and its signature-level REQUIRED is honoured;
+    # whatever that registration looked at must not change what the next registration of the same object sees
+    ctx.bucket('reg:same-object-registered-before')
+    first = gin.external_configurable(p.original, name=p.name + '_first', module=p.module)
+    K = {n: 0 for n in spec['pos']}
+    K.update({k[0]: 0 for k in spec['kwonly'] if not k[1]})
+    mark = probes.RECORDER.mark()
+    try:
+      first(**K)
+      ctx.check(False, 'missing-required-not-reported', 'first registration of the object: call with %r unbound did not fail' % case['victim'])
+    except RuntimeError as e:
+      ctx.check(case['victim'] in str(e), 'required-error-list-differs', 'first registration: error does not name %r: %s' % (case['victim'], str(e)[:200]))
+    except Exception as e:  # pylint: disable=broad-except
+      ctx.check(False, 'unexpected-exception', 'first registration: %s: %s' % (type(e).__name__, str(e)[:200]))
+    ctx.check(not probes.RECORDER.since(mark, p.pid), 'body-ran-with-unfilled-required', 'first registration: the body ran although %r was unfilled' % case['victim'])
   before = getattr(p.original, '__init__', None) if spec['shape'] == 'init' else None
   try:
     probes.do_register(p)
